@@ -2,6 +2,8 @@ package dht
 
 import (
 	"net"
+
+	"github.com/anacrolix/dht/v2/krpc"
 )
 
 // C01: a put that the node must refuse does not wedge it. A mutable item is stored; a second,
@@ -59,5 +61,47 @@ func VerifC01_RefusedPutThenServes() {
 	r3 := verifWirePut(v, from, n, true)
 	verifAssert(r3 != nil && r3.Y == "r", "C01: a later acceptable put is still handled")
 	verifStillServes(v, "after a refused put")
+	verifReach("end")
+}
+
+// C01: a correctly tokened put whose optional fields are present or absent in every combination -
+// key (immutable items carry none), seq, value, salt, cas - never takes the node down: it is answered
+// (response or KRPC error) or ignored, and the node still serves afterwards. (The token is obtained
+// the way a remote node does, so the handler runs past its token check.)
+func VerifC01_PutFieldSubsets() {
+	verifLimiterAlwaysGrants()
+	v := verifStartServer(verifSrvOpt{noSecurity: true, concreteID: true})
+	verifFixTokenClock(v.s)
+	verifFreezeClock(true)
+	from := &net.UDPAddr{IP: net.IP{192, 0, 2, 9}, Port: 4001}
+	a := &krpc.MsgArgs{ID: verifConcreteIDInBucket(v.id, 0, 1), Token: v.s.createToken(NewAddr(from))}
+	if verifNondetBool() {
+		verifFill(a.K[:])
+		verifFill(a.Sig[:])
+	}
+	if verifNondetBool() {
+		sq := int64(verifChoice(0, 1))
+		a.Seq = &sq
+	}
+	if verifNondetBool() {
+		a.V = "vv"
+	}
+	if verifNondetBool() {
+		a.Salt = []byte("s")
+	}
+	if verifNondetBool() {
+		a.Cas = 3
+	}
+	before := len(v.sock.sent)
+	v.sock.deliver(verifEncode(krpc.Msg{Q: "put", Y: "q", T: "pf", A: a}, 80), from)
+	n := 0
+	for _, w := range v.sock.sent[before:] {
+		if w.msg.Y != "q" {
+			n++
+			verifAssert(w.msg.T == "pf" && (w.msg.Y == "r" || w.msg.Y == "e"), "C08: the answer to a put is a response or an error echoing its transaction ID")
+		}
+	}
+	verifAssert(n <= 1, "C08: at most one datagram answers a put")
+	verifStillServes(v, "after a put with an arbitrary subset of its fields")
 	verifReach("end")
 }
